@@ -424,6 +424,9 @@ func oneByteUseGuarded(c *Ctx, call *ssa.Call, buf ssa.Value) (bool, string) {
 					}
 				}
 			}
+			if !guarded && byteReturnedWithErr(c, fn, ld, func(v ssa.Value) bool { return isReadResult(v, 1) }) {
+				guarded = true
+			}
 			if !guarded {
 				bad = fmt.Sprintf("the byte read into the one-byte buffer is used at %s without a dominating test of the read's n/err (a failed or empty read would be taken for a byte)", c.P.instrPos(ld))
 			}
@@ -617,10 +620,16 @@ func ruleBulkFrame(c *Ctx, rid string) {
 	badCmp := 0
 	allInstrs(f, func(ins ssa.Instruction) {
 		ia, ok := ins.(*ssa.IndexAddr)
-		if !ok || strip(ia.X) != ssa.Value(mk) || ia.Referrers() == nil {
+		if !ok || ia.Referrers() == nil {
 			return
 		}
-		idx := linOf(ia.Index)
+		base, idx, okIdx := indexThroughSlices(ia)
+		if base != ssa.Value(mk) {
+			return
+		}
+		if !okIdx {
+			idx = lin{base: ia.Index}
+		}
 		for _, r := range *ia.Referrers() {
 			ld, ok := r.(*ssa.UnOp)
 			if !ok || ld.Op != token.MUL || ld.Referrers() == nil {
@@ -924,4 +933,100 @@ func allocUsesGuarded(al *ssa.Alloc, st *ssa.Store, errEx *ssa.Extract) bool {
 		}
 	}
 	return true
+}
+
+// onlyStaticallyCalled: fn is unexported and every reference to it in the program is the callee
+// position of a call in a source function (no method value, thunk, go/defer or stored func value).
+func (p *Program) onlyStaticallyCalled(fn *ssa.Function) ([]*ssa.Call, bool) {
+	if fn.Object() == nil || fn.Object().Exported() || fn.Parent() != nil {
+		return nil, false
+	}
+	var sites []*ssa.Call
+	ok := true
+	for f := range p.AllFunctions() {
+		if f.Blocks == nil {
+			continue
+		}
+		allInstrs(f, func(ins ssa.Instruction) {
+			var ops []*ssa.Value
+			for _, op := range ins.Operands(ops) {
+				if op == nil || *op != ssa.Value(fn) {
+					continue
+				}
+				cl, isCall := ins.(*ssa.Call)
+				if !isCall || f.Synthetic != "" || cl.Call.Value != ssa.Value(fn) {
+					ok = false
+					continue
+				}
+				for _, a := range cl.Call.Args {
+					if a == ssa.Value(fn) {
+						ok = false
+					}
+				}
+				sites = append(sites, cl)
+			}
+		})
+	}
+	return sites, ok && len(sites) > 0
+}
+
+// byteReturnedWithErr: the helper idiom `return buf[0], err` — the byte is only returned, always
+// together with the error of the read as the last result, and every caller of the (unexported,
+// only statically called) helper uses the byte only where that error is nil.
+func byteReturnedWithErr(c *Ctx, fn *ssa.Function, ld *ssa.UnOp, isErr func(ssa.Value) bool) bool {
+	if ld.Referrers() == nil {
+		return false
+	}
+	n := 0
+	for _, r := range *ld.Referrers() {
+		if _, ok := r.(*ssa.DebugRef); ok {
+			continue
+		}
+		ret, ok := r.(*ssa.Return)
+		if !ok || len(ret.Results) < 2 || !isErr(ret.Results[len(ret.Results)-1]) {
+			return false
+		}
+		n++
+	}
+	if n == 0 {
+		return false
+	}
+	sites, ok := c.P.onlyStaticallyCalled(fn)
+	if !ok {
+		return false
+	}
+	for _, s := range sites {
+		if okE, _ := errCheckedCall(s); !okE {
+			return false
+		}
+	}
+	return true
+}
+
+// indexThroughSlices resolves x[i] where x is a chain of reslicings b[lo:...] of an underlying
+// buffer to (buffer, lo+i).
+func indexThroughSlices(ia *ssa.IndexAddr) (ssa.Value, lin, bool) {
+	idx := linOf(ia.Index)
+	x := strip(ia.X)
+	ok := true
+	for d := 0; d < 4; d++ {
+		s, isSl := x.(*ssa.Slice)
+		if !isSl {
+			break
+		}
+		if s.Low != nil {
+			lo := linOf(s.Low)
+			switch {
+			case idx.base == nil:
+				lo.off += idx.off
+				idx = lo
+			case lo.base == nil:
+				idx.off += lo.off
+			default:
+				ok = false
+			}
+		}
+		x = strip(s.X)
+	}
+	return x, idx, ok
 }
